@@ -30,7 +30,10 @@ Four bounded-exhaustive parts, all against the real ``compile_filter`` / ``*Mess
       subfield-undecodable-raises  4-part selector on a variable whose payload the subfield serializer cannot decode raised
       logger-filter-error        the same through FilteringMessageLogger: add_log_entry logged an exception / set_filter raised
       logger-leaf-value          add_log_entry's verdict / the view differs from the reference
-(c) view invariant, explicit-state search (hmc.explore.bfs) on FilteringMessageLogger(maxlen in {2, 3}):
+(c) view invariant, explicit-state search (hmc.explore.bfs) on FilteringMessageLogger(maxlen in {1, 2, 3}; canon includes the
+    bound of every entry container and the logger's scalar settings, so a state that only *looks* like an earlier one is expanded),
+    plus an overflow family enumerated without deduplication on maxlen 2: prefix in {-, clear, log.clear, pause.resume, 3 logs} .
+    set_filter(selective | nothing) . every kind sequence of maxlen+1 .. maxlen+2 logs . set_filter(all | selective):
     alphabet {log(LLUDP | EQ | HTTP), set_filter(all | selective | nothing | type-inapplicable), pause, resume, clear}.
     "Retained" (read off set_filter/add_log_entry): the entries in the raw ring buffer (last maxlen logged while not paused)
     plus the entries that aged out of the ring buffer while visible and have matched every filter set since.
@@ -1103,18 +1106,23 @@ class LogHarness:
         # that internal renames / deque<->list swaps of the implementation do not break the harness
         view = [_ident(e) for e in lg]
         containers = []
+        config = []  # what else can influence a future transition: the containers' bounds, scalar settings of the logger
         for name, val in sorted(vars(lg).items()):
             if isinstance(val, (list, tuple)) or type(val).__name__ == "deque":
                 items = list(val)
                 if all(hasattr(e, "matches") or hasattr(e, "message") for e in items):
                     containers.append([_ident(e) for e in items])
+                    config.append(("bound", repr(getattr(val, "maxlen", None))))
+            elif val is None or isinstance(val, (bool, int, str)):
+                config.append(("scalar", repr(val)))
         order: dict = {}
         for c in containers + [view]:
             for ident in c:
                 order.setdefault(ident, len(order))
         impl = tuple(sorted(tuple((k, order[(k, s)]) for k, s in c) for c in containers))
         view_real = tuple((k, order[(k, s)]) for k, s in view)
-        return (impl, view_real, bool(lg.paused), w.fidx, tuple(k for k, _ in w.raw), tuple(k for k, _ in w.aged), w.paused)
+        return (impl, view_real, bool(lg.paused), w.fidx, tuple(k for k, _ in w.raw), tuple(k for k, _ in w.aged), w.paused,
+                tuple(sorted(config)))
 
     def nontrivial(self, w: LogWorld, hist):
         if w.aged or (w.raw and len(self._expected(w)) != len(w.raw) + len(w.aged)):
@@ -1192,6 +1200,39 @@ class LogHarness:
             w.violations.append({"clause": "view-equals-filtered-log", "site": site,
                                  "detail": f"after {ev} with filter {tag} ({C_FILTERS[w.fidx][1]!r}): view {view}, retained entries matching "
                                            f"the filter {want} (ring buffer {w.raw}, aged-out visible {w.aged})"})
+
+
+# overflow family: exhaustive over a stated *shape*, without state deduplication (does not depend on canon() seeing every piece
+# of implementation state): prefix . set_filter(narrowing) . log^(maxlen+1 .. maxlen+2) (every kind sequence) . set_filter(wider)
+OVF_MAXLEN = 2
+OVF_PREFIXES = [[], [("clear",)], [("log", 0), ("clear",)], [("pause",), ("resume",)], [("log", 1), ("log", 2), ("log", 0)]]
+OVF_NARROW = [1, 2]   # selective, nothing
+OVF_WIDER = [0, 1]    # all, selective
+
+
+def _ovf_work(item):
+    pi, f, g = item
+    part = Part()
+    h = LogHarness(OVF_MAXLEN)
+    for n in (OVF_MAXLEN + 1, OVF_MAXLEN + 2):
+        for kinds in itertools.product(range(len(C_KINDS)), repeat=n):
+            hist = list(OVF_PREFIXES[pi]) + [("filter", f)] + [("log", k) for k in kinds] + [("filter", g)]
+            w = h.fresh()
+            part.count("c_overflow_histories")
+            for i, ev in enumerate(hist):
+                w.violations = []
+                h.step(w, ev)
+                part.count("evaluations")
+                part.count("c_overflow_steps")
+                if w.violations:
+                    for v in w.violations:
+                        part.violation(v["clause"], v["site"], {"history": [list(e) for e in hist[:i + 1]]}, v.get("detail", ""))
+                    break
+            else:
+                part.outcome(("c-ovf", h.observe(w)))
+                if w.aged or len(h._expected(w)) != len(w.raw):
+                    part.mark_nontrivial(("c-ovf", pi, f, g, kinds))
+    return part.dump()
 
 
 # ================================================================================================
@@ -1412,13 +1453,16 @@ def run(run: Run):
     walls["b"], t_part = round(time.time() - t_part, 1), time.time()
     # ---- (c) -------------------------------------------------------------------------------------
     depth = 5 if quick else 7
-    for maxlen in (2, 3):
+    for maxlen in (1, 2, 3):
         explore.bfs(run, LogHarness(maxlen), depth=depth, dev_bound=0, label=f"view maxlen={maxlen} ")
+    ovf_items = [(pi, f, g) for pi in range(len(OVF_PREFIXES)) for f in OVF_NARROW for g in OVF_WIDER]
+    for d in pmap(_ovf_work, ovf_items, run.jobs):
+        run.merge(d)
     for v in run.violations:
         wit = v["witness"]
         if isinstance(wit, dict) and "history" in wit and "part" not in wit:
             hist = wit["history"]
-            for maxlen in (2, 3):
+            for maxlen in (2, 1, 3):
                 h = LogHarness(maxlen)
                 got = explore.replay_history(h, hist)
                 if any(g["clause"] == v["clause"] and g["site"] == v["site"] for g in got):
@@ -1449,7 +1493,8 @@ def run(run: Run):
         f"unparenthesised chains of length 2..{3 if quick else 4} (all leaves; negated terms over 4 leaves) x {len(ENTRY_IDS_A)} entries x "
         f"short_circuit {{T,F}}; (b) {len(SELECTORS)} selectors x 11 operators x {len(LITS)} literals x {len(ENTRY_IDS_B)} entries x {{T,F}}, also "
         f"through FilteringMessageLogger.add_log_entry/set_filter; (c) BFS to depth {depth} over {{log(LLUDP|EQ|HTTP), set_filter(x4), pause, "
-        f"resume, clear}} on FilteringMessageLogger(maxlen 2, 3), states deduplicated on (ring-buffer kinds, view as (kind, ring position), "
+        f"resume, clear}} on FilteringMessageLogger(maxlen 1, 2, 3) + every history prefix.set_filter(narrowing).log^(3..4).set_filter(wider) "
+        f"on maxlen 2 without deduplication ({run.counters.get('c_overflow_histories', 0)} histories), states deduplicated on (ring-buffer kinds, view as (kind, ring position), "
         f"paused, filter); (d) {'every value row' if not quick else 'row 0'} of each of {len(names)} templates x {{fresh, wire-decoded}} x "
         f"{{frozen, not}} through freeze/thaw and export/import, {len(EQ_EVENTS)} EQ events, {len(HTTP_VARIANTS)} HTTP flows. "
         "distinct_nontrivial = expressions whose verdict differs between entries (a), leaf/entry pairs selecting several fields or an "
